@@ -241,7 +241,7 @@ def _follow_label(fn, blk, aliases, ty, info, seen, depth):
 SWALLOW = {'ok', 'err', 'unwrap_or', 'unwrap_or_else', 'unwrap_or_default', 'map_or', 'map_or_else', 'is_ok', 'is_err',
            'is_ok_and', 'is_err_and', 'iter', 'into_iter', 'and', 'or'}
 PANICKY = {'unwrap', 'expect', 'unwrap_err', 'expect_err', 'unwrap_unchecked', 'unwrap_err_unchecked'}
-PRESERVE = {'map', 'and_then', 'inspect', 'inspect_err', 'copied', 'cloned', 'as_ref', 'as_mut'}
+PRESERVE = {'map', 'and_then', 'inspect', 'inspect_err', 'copied', 'cloned', 'as_ref', 'as_mut', 'transpose'}
 RELABEL = {'map_err', 'or_else'}
 
 
@@ -265,6 +265,39 @@ class Fate:
 def result_method(callee):
     m = re.match(r'^core::(result::Result|option::Option)::(\w+)$', callee or '')
     return (m.group(1), m.group(2)) if m else None
+
+
+def _closure_returns_its_argument(fn, deps, term):
+    """is the closure handed to this combinator call an identity on its (error) argument?"""
+    facts = getattr(fn, 'facts_ref', None)
+    if facts is None:
+        return False
+    for a in term['args'][1:]:
+        for tk in deps.of_operand(a):
+            if tk[0] != 'closure' or tk[1] not in facts.fns:
+                continue
+            cf = facts.fns[tk[1]]
+            if cf.argc < 2:
+                return False
+            # every value assigned to the return place is (a move chain from) parameter 2
+            alias = {2}
+            ok = False
+            changed = True
+            while changed:
+                changed = False
+                for bi in cf.reachable():
+                    for s in cf.blocks[bi]['stmts']:
+                        if s['k'] == 'assign' and not s['lhs']['p'] and s['rv']['k'] == 'use':
+                            p = op_place(s['rv']['a'])
+                            if p is not None and not p['p'] and p['l'] in alias and s['lhs']['l'] not in alias:
+                                alias.add(s['lhs']['l'])
+                                changed = True
+            rets = [s for bi in cf.reachable() for s in cf.blocks[bi]['stmts']
+                    if s['k'] == 'assign' and s['lhs']['l'] == 0 and not s['lhs']['p']]
+            ok = bool(rets) and all(s['rv']['k'] == 'use' and op_place(s['rv']['a']) is not None and
+                                    op_place(s['rv']['a'])['l'] in alias and not op_place(s['rv']['a'])['p'] for s in rets)
+            return ok
+    return False
 
 
 def explore_result_fate(fn, origin_blk, start_blk, dest_key, dest_ty_ix, io_variant_index, findings, stats,
@@ -435,11 +468,15 @@ def explore_result_fate(fn, origin_blk, start_blk, dest_key, dest_ty_ix, io_vari
                                 fnarg = c['fn']
                         if fnarg in ('core::convert::From::from', 'core::convert::Into::into'):
                             pass
+                        elif _closure_returns_its_argument(fn, deps, t):
+                            pass  # `map_err(|e| { side effect; e })`: the error value is handed on unchanged
                         else:
                             report('R9.3', 'result of %s goes through %s(), which may replace the error kind' %
                                    (origin_desc, meth), path, t['span'])
                             return
                     if meth in PRESERVE or meth in RELABEL:
+                        if place_key(t['dest']) == (0, ()):
+                            return  # the (error-preserving) combinator's result is the function's return value
                         if nxt is not None and contains_dev_result(types, t['dest_ty']):
                             step(nxt, ('whole', frozenset({place_key(t['dest'])}), frozenset(), frozenset(),
                                        frozenset(), t['dest_ty'], examined), path, oe)
@@ -691,15 +728,16 @@ def error_blocks(fn):
     """blocks that assign an error value to the return place (Err(..) aggregate, from_residual call, or a
     Break/None carrier), i.e. blocks that can only lie on a non-Ok exit"""
     out = set()
+    rets = {(0, ())} | {(r, ()) for r in fn.__dict__.get('inlined_ret_locals', ())}
     for bi in fn.reachable():
         b = fn.blocks[bi]
         for s in b['stmts']:
-            if s['k'] == 'assign' and place_key(s['lhs']) == (0, ()):
+            if s['k'] == 'assign' and place_key(s['lhs']) in rets:
                 rv = s['rv']
                 if rv['k'] == 'agg' and rv.get('ak') == 'adt' and rv['adt'] in VARIANTS and rv['variant'] in ('Err', ):
                     out.add(bi)
         t = b['term']
-        if t['k'] == 'call' and place_key(t['dest']) == (0, ()) and (t.get('callee') or '').endswith(
+        if t['k'] == 'call' and place_key(t['dest']) in rets and (t.get('callee') or '').endswith(
                 'FromResidual::from_residual'):
             out.add(bi)
     return out
@@ -882,7 +920,7 @@ def switch_source(fn, blk):
         return {'kind': 'place', 'place': p}
     l = p['l']
     cur = blk
-    for _ in range(6):
+    for _ in range(40):
         s = last_def_in_block(fn, cur, l)
         if s is not None:
             rv = s['rv']
